@@ -83,6 +83,7 @@ def recommend : Handler := fun j => do
       | .file q => pathJson q
       | .empty => Json.null),
     ("base_path", pathJson p.base), ("assessment_strategy", txt p.cost), ("title_format", txt p.titleFormat),
+    ("messages_on_stderr", Json.bool p.messagesOnStderr),
     ("out", match p.out with
       | .stdout => Json.null
       | .file q => pathJson q)]) (recommendPlan a w)
